@@ -107,4 +107,37 @@ theorem dec_length (g : Bytes → Bytes) (hg : ∀ b, b.length = 16 → (g b).le
   rw [decN_length g hg _ _ _ _ (by simp; omega) (by simp; omega) (by omega)]
   omega
 
+theorem encN_decN (f g : Bytes → Bytes) (h : Inv g f) (n : Nat) (c m src : Bytes)
+    (hc : c.length = 16) (hm : m.length = 16) (hs : src.length = 16 * n) :
+    encN f n c m (decN g n c m src) = src := by
+  induction n generalizing c m src with
+  | zero => simp [encN]; exact List.eq_nil_of_length_eq_zero (by omega)
+  | succ n ih =>
+    have ht : (src.take 16).length = 16 := by simp; omega
+    have htm : (xorB (src.take 16) m).length = 16 := by rw [xorB_length]; omega
+    have hg := h.f_len _ htm
+    have hy : (xorB (g (xorB (src.take 16) m)) c).length = 16 := by
+      rw [xorB_length, hg]; omega
+    simp only [encN, decN]
+    rw [List.take_left' hy, List.drop_left' hy]
+    rw [xorB_cancel _ _ (by omega), h.gf _ htm, xorB_cancel _ _ (by omega)]
+    rw [ih _ _ _ ht hy (by simp; omega)]
+    exact List.take_append_drop 16 src
+
+/-- `EncryptBlocks ∘ DecryptBlocks = id`: IGE decryption is injective on block-aligned input. -/
+theorem enc_dec (f g : Bytes → Bytes) (h : Inv g f) (iv src : Bytes) (hiv : iv.length = 32)
+    (hs : src.length % 16 = 0) : enc f iv (dec g iv src) = src := by
+  unfold dec enc
+  have hc : (iv.take 16).length = 16 := by simp; omega
+  have hm : (iv.drop 16).length = 16 := by simp; omega
+  have hl : src.length = 16 * (src.length / 16) := by omega
+  rw [decN_length g h.f_len _ _ _ _ hc hm hl]
+  have : 16 * (src.length / 16) / 16 = src.length / 16 := by omega
+  rw [this]
+  exact encN_decN f g h _ _ _ _ hc hm hl
+
+theorem dec_injective (f g : Bytes → Bytes) (h : Inv g f) (iv a b : Bytes) (hiv : iv.length = 32)
+    (ha : a.length % 16 = 0) (hb : b.length % 16 = 0) (he : dec g iv a = dec g iv b) : a = b := by
+  rw [← enc_dec f g h iv a hiv ha, ← enc_dec f g h iv b hiv hb, he]
+
 end TdModel.Ige
